@@ -85,10 +85,19 @@ def case_step(ctx, nsub=3):
         ctx.check_concrete("failed_substep_commits_nothing", item.results.statevars == last_ok)
 
 
-def case_job(ctx):
+def case_job(ctx, with_x0=False):
     field = tiny_field(ctx)
     n = 8
-    item = RampItem(ctx, field, n, "a")
+    if with_x0:
+        # the item lives on its own field; the top-level container x0 (on which the boundary is defined) is what is solved:
+        # curve points must come from the substep's result, not from a field that is linked to it only later
+        with ctx.concrete():
+            m2 = fem.Rectangle(a=(3, 3), b=(5, 4), n=2)
+            f_item = fem.FieldContainer([fem.Field(fem.RegionQuad(m2), dim=2)])
+        f_item[0].values = ctx.const_array(f_item[0].values)
+        item = RampItem(ctx, f_item, n, "a")
+    else:
+        item = RampItem(ctx, field, n, "a")
     r1 = ctx.array("r1", (2,), -1, 1)
     r2 = ctx.array("r2", (1,), -1, 1)
     with ctx.concrete():
@@ -103,7 +112,7 @@ def case_job(ctx):
     log = []
     failed = False
     try:
-        job.evaluate(solver=solver_stub(ctx, log), maxiter=1, tol=tol, verbose=False)
+        job.evaluate(solver=solver_stub(ctx, log), maxiter=1, tol=tol, verbose=False, **({"x0": field} if with_x0 else {}))
     except ValueError:
         failed = True
     order = [(j, i) for j, i, _ in calls]
@@ -220,6 +229,7 @@ def cases(tier):
     return [
         ("step", case_step, {"nsub": 3, "max_paths": 16}),
         ("job", case_job, {"max_paths": 16}),
+        ("job", case_job, {"with_x0": True, "max_paths": 16}),
         ("ogden_roxburgh_history", case_ogden_roxburgh_history, {"max_paths": 32}),
         ("plasticity", case_plasticity, {"npoints": 1, "max_paths": 8}),
         ("plasticity", case_plasticity, {"npoints": 2, "max_paths": 8}),
